@@ -48,7 +48,13 @@ def tv_insn(item):
         t0 = time.time()
         if c["insn_name"] in noped:
             ok = il.strip() == "return NOP();" and meta == ["HEX_IL_INSN_ATTR_NONE"]
-            out.append(dict(key=key, verdict="noped-ok" if ok else "noped-bad", detail=il[:80], time=0.0))
+            detail = il[:80]
+            if ok:
+                # an instruction on the no-op list must not have architectural effects of its own (hints/barriers are effect-free)
+                eff = noped_effects(b, subs, macs)
+                if eff:
+                    ok, detail = False, "instruction on the no-op list has architectural effects: " + eff
+            out.append(dict(key=key, verdict="noped-ok" if ok else "noped-bad", detail=detail, time=0.0, c=b))
             continue
         try:
             r = tv.check_pair(b, il, il_subs(fmt), (subs, macs), tv.Opts(unroll=unroll, timeout_ms=timeout_ms))
@@ -180,3 +186,27 @@ def layouts_insn(item):
             d["il_a"], d["il_b"] = a["rzil"][i], b["rzil"][i]
         out.append(d)
     return out
+
+
+def noped_effects(text, subs, macs):
+    """Effects of a behaviour when unknown functions are taken as effect-free; '' if none."""
+    from .cref import CExec, optable, Unsupported, CSyntaxError
+    from .ilsem import Env, State, ModelGap
+    from .dom import Z3Dom
+    import z3
+    D = Z3Dom()
+    env = Env(D, optable(text, [d["code"] for d in subs.values()]))
+    cx = CExec(env, subs, macs, 9)
+    cx.lenient_calls = True
+    try:
+        st, fr, scope = cx.run(text, State(env))
+    except (Unsupported, CSyntaxError, ModelGap) as e:
+        return ""  # outside the reference: nothing can be said
+    eff = [f"writes {k}" for k, w in st.regw.items() if not z3.is_false(z3.simplify(w))]
+    if not st.mem.eq(env.mem0):
+        eff.append("stores to memory")
+    if not z3.is_false(z3.simplify(fr["jumpf"])):
+        eff.append("jumps")
+    if not z3.is_false(z3.simplify(st.cancel)):
+        eff.append("cancels a slot")
+    return ", ".join(eff)
